@@ -284,7 +284,8 @@ def _n12(fn):
                         and not isinstance(st.value, (ast.Lambda, ast.NamedExpr))
                     ):
                         pos = [p for h in _header_exprs(nxt) for p in _once_positions(h, nm)]
-                        if len(pos) == 1 and pos[0][1]:
+                        pure = not any(isinstance(x, (ast.Call, ast.NamedExpr, ast.Yield, ast.YieldFrom, ast.Await)) for x in ast.walk(st.value))
+                        if len(pos) == 1 and (pos[0][1] or pure):
                             _replace_node(nxt, pos[0][0], st.value)
                             del blk[i]
                             removed += 1
@@ -472,13 +473,85 @@ def _n2b(fn):
                 uses_here = sum(1 for s_ in blk[i + 1:] for x in ast.walk(s_) if isinstance(x, ast.Name) and x.id == nm)
                 uses_all = sum(1 for x in ast.walk(fn) if isinstance(x, ast.Name) and x.id == nm and isinstance(x.ctx, ast.Load))
                 # the object the path starts from must not be mutated through the path's root in the rest of the block
-                if uses_here == uses_all and uses_all >= 2:
+                if uses_here == uses_all and uses_all >= 1:
                     sub = _Subst({nm: st.value})
                     for k in range(i + 1, len(blk)):
                         blk[k] = sub.visit(blk[k])
                     del blk[i]
                     n += 1
                     continue
+            i += 1
+    return n
+
+
+# ------------------------------------------------------------------------------------------------ N11 copy-then-update
+def _n11(fn):
+    """`d = dict(a); d.update(b)` (also `a.copy()`, `{**a}`; several updates) -> `d = a | b`"""
+    n = 0
+    for _owner, _field, blk in list(_blocks(fn)):
+        i = 0
+        while i + 1 < len(blk):
+            st = blk[i]
+            if isinstance(st, ast.Assign) and len(st.targets) == 1 and isinstance(st.targets[0], ast.Name):
+                fi = _fresh_init(st.value)
+                if fi is not None and fi[1] is not None and fi[0] in ("dict", "copy", "set"):
+                    nm = st.targets[0].id
+                    out = fi[1]
+                    j = i + 1
+                    while j < len(blk):
+                        s_ = blk[j]
+                        if (
+                            isinstance(s_, ast.Expr) and isinstance(s_.value, ast.Call) and isinstance(s_.value.func, ast.Attribute)
+                            and s_.value.func.attr == "update" and isinstance(s_.value.func.value, ast.Name) and s_.value.func.value.id == nm
+                            and len(s_.value.args) == 1 and not s_.value.keywords
+                            and not any(isinstance(x, ast.Name) and x.id == nm for x in ast.walk(s_.value.args[0]))
+                        ):
+                            out = ast.BinOp(left=out, op=ast.BitOr(), right=s_.value.args[0])
+                            j += 1
+                        else:
+                            break
+                    if j > i + 1:
+                        new = ast.Assign(targets=st.targets, value=out)
+                        ast.copy_location(new, st)
+                        ast.fix_missing_locations(new)
+                        blk[i:j] = [new]
+                        n += 1
+            i += 1
+    return n
+
+
+# ------------------------------------------------------------------------------------------------ N10 get-then-None-test
+def _terminates(body):
+    return bool(body) and isinstance(body[-1], (ast.Raise, ast.Return, ast.Continue, ast.Break))
+
+
+def _n10(fn):
+    """`x = D.get(K); if x is None: <raise/return>` -> `if K not in D: <raise/return>; x = D[K]`  (the membership-test
+    form of the same lookup; the temporary is then inlined by N2/N2b)"""
+    n = 0
+    for _owner, _field, blk in list(_blocks(fn)):
+        i = 0
+        while i + 1 < len(blk):
+            st, nxt = blk[i], blk[i + 1]
+            if (
+                isinstance(st, ast.Assign) and len(st.targets) == 1 and isinstance(st.targets[0], ast.Name)
+                and isinstance(st.value, ast.Call) and isinstance(st.value.func, ast.Attribute) and st.value.func.attr == "get"
+                and len(st.value.args) == 1 and not st.value.keywords and _pure_chain(st.value.func.value) and _pure_chain(st.value.args[0])
+                and isinstance(nxt, ast.If) and not nxt.orelse and _terminates(nxt.body)
+                and isinstance(nxt.test, ast.Compare) and len(nxt.test.ops) == 1 and isinstance(nxt.test.ops[0], ast.Is)
+                and isinstance(nxt.test.left, ast.Name) and nxt.test.left.id == st.targets[0].id
+                and isinstance(nxt.test.comparators[0], ast.Constant) and nxt.test.comparators[0].value is None
+                and not any(isinstance(x, ast.Name) and x.id == st.targets[0].id for b in nxt.body for x in ast.walk(b))
+            ):
+                d, k = st.value.func.value, st.value.args[0]
+                test = ast.Compare(left=copy.deepcopy(k), ops=[ast.NotIn()], comparators=[copy.deepcopy(d)])
+                new_if = ast.If(test=test, body=nxt.body, orelse=[])
+                new_as = ast.Assign(targets=st.targets, value=ast.Subscript(value=copy.deepcopy(d), slice=copy.deepcopy(k), ctx=ast.Load()))
+                for o in (new_if, new_as):
+                    ast.copy_location(o, st)
+                    ast.fix_missing_locations(o)
+                blk[i : i + 2] = [new_if, new_as]
+                n += 1
             i += 1
     return n
 
@@ -704,7 +777,7 @@ def normalise(tree, new_helpers=frozenset()):
     tot = {"N8": 0, "N5": 0, "N6": 0, "N12": 0}
     for fn in fns:
         for _ in range(4):
-            a = _n8(fn)
+            a = _n8(fn) + _n10(fn) + _n11(fn)
             b = _n12(fn) + _n2b(fn)
             c = _n5(fn)
             d = _n6(fn)
@@ -715,6 +788,9 @@ def normalise(tree, new_helpers=frozenset()):
             if not (a or b or c or d):
                 break
     counts.update(tot)
+    idi2 = _Idioms()
+    idi2.visit(tree)  # inlining exposes `not (a in b)` etc.
+    counts["N4"] += idi2.n
     counts["N3"] = _n3(tree)
     ast.fix_missing_locations(tree)
     return counts
